@@ -20,7 +20,7 @@ import re
 from exo.core.LoopIR import LoopIR, T
 
 from .. import irutil, annot, cbuild
-from ..common import jhash, shash, CaseTimeout
+from ..common import shash, CaseTimeout
 from ..gen_prog import Knobs, GenProgram, HEADER, gen_program
 from ..gen_sched import Session, apply_step, random_step, D_node
 from ..stream import StreamProfile, run_stream, Monitor, mk_case, sstr
@@ -518,6 +518,8 @@ _GCC_KINDS = [
     ("too few arguments", "argument count"),
     ("too many arguments", "argument count"),
     ("request for member", "request for member"),
+    ("array size missing", "array size missing"),
+    ("assignment to expression with array type", "assignment to array"),
 ]
 
 _ERR = re.compile(r"^(t\.[ch]):(\d+):(\d+): error: (.*)$", re.M)
@@ -557,6 +559,8 @@ def gcc_feature(kind, msg, line, ir, findings, stderr=""):
         return "window_struct_constness"
     if kind == "request for member" and ".strides[" in line:
         return "stride_of_renamed_buffer"
+    if kind == "array size missing" and re.search(r"\w\[\];", line):
+        return "scalar_alloc_in_array_memory"
     quoted = set(re.findall(r"[‘'`](\w+)[’'`]", msg))
     words = set(re.findall(r"\w+", line)) | quoted
     names = _all_names(ir)
@@ -649,7 +653,9 @@ class C15Monitor(Monitor):
         self.seen_fp.add(fp)
         ctx.stat("evaluations")
         ctx.stat("compile.attempts")
-        ctx.stat(f"compile.attempts.via.{via}")
+        ctx.stat(f"compile.attempts.via.{via.split(':')[0]}")
+        if ":" in via:
+            ctx.stat(f"callee_variant.{via.split(':')[1]}")
         try:
             findings, info, jst = annot.judge(ir)
         except CaseTimeout:
@@ -705,7 +711,9 @@ class C15Monitor(Monitor):
                 continue
             self.fired.add(key)
             f = next(x for x in findings if x["kind"] == k)
-            sig = {"prop": "C15", "monitor": "annot-judge", "kind": k, "introduced_by": via if k in new_kinds else "earlier"}
+            # the mechanism: which operation brought the inconsistency in ("source": as written;
+            # "call_eqv": a callee re-annotated by set_* steps; "earlier": present before this step)
+            sig = {"prop": "C15", "monitor": "annot-judge", "kind": k, "introduced_by": via.split(":")[0] if k in new_kinds else "earlier"}
             case = mk_case(sess, sess.steps, "annot-judge", None, {
                 "kind": k, "finding": dict(f), "all_findings": [dict(x) for x in findings][:8],
                 "proc": sstr(proc, 3000), "annotations": annot.annotation_vector(ir)[:40],
@@ -842,7 +850,7 @@ def plan(tier, seed):
 def shard(ctx):
     prof = StreamProfile(script_len=ctx.params.get("script_len", 4), op_weights=dict(ANNOT_OPS), templates=make_templates(ctx))
     prof.template_prob = 1.0
-    run_stream(ctx, prof, [C15Monitor(ctx)], case_timeout=60)
+    run_stream(ctx, prof, [C15Monitor(ctx)], case_timeout=150)
 
 
 MIN_GCC = 150
